@@ -36,15 +36,40 @@
    C02_cells_unsyntactic_refuted shows that the model (not knut) merges two keys without it.
    The cumulative / --diff presentation of a row is C02_row_cumulative.
 
-   Not proved, decided by the correspondence on every run: the text of the CSV (that the renderer
-   emits one block of lines per node in the order of all_rows, the commodity lines of a row, the
-   total and delta lines, the printed form of the numbers), i.e. balance_csv = the rendering of
-   ledger_csv as a theorem.  ledger_csv is built from exactly the expression above and is
-   compared with the binary's CSV and the model's CSV on every run. *)
+   Table level (the TABLE that `balance` prints, i.e. the row list of Model/Report.v render_report
+   before text / CSV rendering; vocabulary Spec/BalanceTableSpec.v; proofs
+   Proofs/BalanceTableLayout.v, BalanceTableTree.v, BalanceTableCells.v):
+
+   C02_table_layout  for every report, render configuration (valued or not) and date list the rows
+       of the table are: separator, header, separator; per top-level A/L account the blocks of its
+       subtree in depth-first order of the sorted tree and an empty line; the Total (A+L) lines, a
+       separator; the same for the E/I/E tree; the Delta lines; a separator.
+   C02_table_rows    for an unvalued balance report the account blocks are one per account row,
+       pairwise distinct, exactly for the accounts ledger_row lists (in the order the sort
+       produces), each block being acct_lines: name = last segment, indent = 2 per level.
+   C02_table_cells   the block of account row has one line per commodity c with a non-zero cell
+       (ascending), and the cell in column j is a decimal whose value is that of
+       cell_amounts: sign * (the ledger's period amount of column j, accumulated over the columns
+       0..j unless --diff), exact, before any rounding (C17).  Hypothesis: postings_syntactic dl.
+   C02_table_cells_render  the same at the level of the renderer alone, for every report and every
+       render configuration, valued or not: with --show-commodities the cell is the amount stored
+       under that commodity, without it the sum over the commodities (collapse_key).
+
+   C02_table_totals  the numbers of the commodity lines of Total (A+L), Total (E+I+E) and Delta are
+       cell_amounts over all A/L accounts, over all other accounts (negated), over all accounts.
+
+   Not proved, decided by the correspondence on every run: which commodity lines the three total
+   rows list (their numbers are C02_table_totals, their place C02_table_layout, Delta = 0 is C01),
+   that a commodity line is listed only for amounts under a period column (an amount stored under
+   the zero date would list its commodity; C02_table_cells states the criterion on the report
+   tree and proves the ledger direction), and the text of the CSV (printed form of the numbers, CSV quoting), i.e.
+   balance_csv = the rendering of ledger_csv as a theorem.  ledger_csv is built from exactly the
+   expression above and is compared with the binary's CSV and the model's CSV on every run. *)
 From Coq Require Import ZArith List Bool.
 From Coq Require Import QArith.
-From Knut Require Import Model.Str Model.Dec Model.Date Model.Account Model.Ledger Model.Report Model.Cli Spec.LedgerSpec
-     Spec.LedgerSyntax Proofs.DecValue Proofs.LedgerProofs Proofs.CloseProofs Proofs.LayoutProofs.
+From Knut Require Import Model.Str Model.Dec Model.Date Model.Account Model.Ledger Model.Table Model.Report Model.Cli Spec.LedgerSpec
+     Spec.LedgerSyntax Spec.BalanceTableSpec Proofs.DecValue Proofs.LedgerProofs Proofs.CloseProofs Proofs.LayoutProofs
+     Proofs.BalanceTableLayout Proofs.BalanceTableTree Proofs.BalanceTableCells Proofs.BalanceTableTotals.
 Import ListNotations.
 Open Scope Z_scope.
 
@@ -161,6 +186,147 @@ Theorem C02_row_cumulative : forall diff neg_ vals c dates,
 Proof. intros. apply row_numbers_values. reflexivity. Qed.
 Print Assumptions C02_row_cumulative.
 
+(* ------------------------------------------------------------------ table level *)
+
+(* The rows of the table that Renderer.Render builds, for every report, every render
+   configuration and every list of dates: Spec.BalanceTableSpec.report_table_rows. *)
+Theorem C02_table_layout : forall rc r dates,
+  t_rows (render_report rc r dates) =
+  (let w := tw rc dates in
+   let al := sorted_al rc r in
+   let eie := sorted_eie rc r in
+   let total_al := node_totals (total_key rc) al [] in
+   let total_eie := node_totals (total_key rc) eie [] in
+   [repeat CSep w; header_cells rc dates; repeat CSep w] ++
+   section_rows rc dates false (n_children al) ++
+   line_rows rc dates 0 s_TotalAL false total_al ++ [repeat CSep w] ++
+   section_rows rc dates true (n_children eie) ++
+   line_rows rc dates 0 s_TotalEIE true total_eie ++ [repeat CSep w] ++
+   line_rows rc dates 0 s_Delta false (ra_plus total_al total_eie) ++ [repeat CSep w]).
+Proof. exact render_report_layout. Qed.
+Print Assumptions C02_table_layout.
+
+(* a section is, per top-level account, the blocks of its subtree (depth first) and an empty line;
+   account_blocks lists the blocks of both sections in table order *)
+Theorem C02_table_sections : forall rc r dates,
+  section_rows rc dates false (n_children (sorted_al rc r)) =
+    concat (map (fun top => concat (map snd (node_blocks rc dates 0 false top)) ++ [repeat CEmpty (tw rc dates)])
+                (n_children (sorted_al rc r))) /\
+  section_rows rc dates true (n_children (sorted_eie rc r)) =
+    concat (map (fun top => concat (map snd (node_blocks rc dates 0 true top)) ++ [repeat CEmpty (tw rc dates)])
+                (n_children (sorted_eie rc r))) /\
+  account_blocks rc r dates =
+    flat_map (node_blocks rc dates 0 false) (n_children (sorted_al rc r)) ++
+    flat_map (node_blocks rc dates 0 true) (n_children (sorted_eie rc r)).
+Proof. intros. repeat split. Qed.
+Print Assumptions C02_table_sections.
+
+(* Which account rows the table has: the table is laid out as above; its account blocks are, in
+   table order, one block acct_lines per element of account_rows (the nodes of the two sorted
+   trees: path and stored amounts); the paths are pairwise distinct and are exactly the accounts
+   that the independent computation lists. *)
+Theorem C02_table_rows : forall cfg ds r part,
+  bc_valuation cfg = None ->
+  balance_report cfg ds = COk (r, part) ->
+  let rc := balance_render_cfg cfg in
+  let dates := end_dates part in
+  t_rows (render_report rc r dates) = report_table_rows rc r dates /\
+  account_blocks rc r dates = map (fun pa => (fst pa, acct_lines rc dates (fst pa) (snd pa))) (account_rows rc r) /\
+  NoDup (map fst (account_rows rc r)) /\
+  exists dl,
+    parse_directives ds = MOk dl /\
+    ((bc_close cfg = true -> postings_syntactic dl) ->
+     forall row, In row (map fst (account_rows rc r)) <-> ledger_row cfg dl row).
+Proof. exact table_rows. Qed.
+Print Assumptions C02_table_rows.
+
+(* the order of the account rows is that of the sorted trees, a permutation of the node paths *)
+Theorem C02_table_rows_order : forall rc r,
+  map fst (account_rows rc r) =
+    map (fun l : str * account * ramounts => snd (fst l)) (flat_map tree_lines (n_children (sorted_al rc r))) ++
+    map (fun l : str * account * ramounts => snd (fst l)) (flat_map tree_lines (n_children (sorted_eie rc r))) /\
+  Permutation.Permutation (map fst (account_rows rc r)) (rows r).
+Proof.
+  intros rc r. split; [|apply account_rows_paths].
+  unfold account_rows. rewrite map_map, map_app. reflexivity.
+Qed.
+Print Assumptions C02_table_rows_order.
+
+(* The cells: the block of account `row` is block_ok -- a single name line when no commodity has a
+   non-zero cell; else one line per such commodity, ascending, carrying the name (last segment,
+   indented 2 per level) on the first line, the commodity, and per column a decimal whose value
+   is the value of cell_amounts: the ledger's period amount, accumulated over the columns unless
+   --diff, negated for equity / income / expense rows.  Exact decimals, no rounding. *)
+Theorem C02_table_cells : forall cfg ds r part,
+  bc_valuation cfg = None ->
+  balance_report cfg ds = COk (r, part) ->
+  exists dl,
+    parse_directives ds = MOk dl /\
+    (postings_syntactic dl ->
+     let rc := balance_render_cfg cfg in
+     let dates := end_dates part in
+     let es := ledger_entries cfg dl part in
+     forall row a, In (row, a) (account_rows rc r) ->
+       exists coms,
+         coms_sorted coms /\
+         (forall c, In c coms <-> exists od, ~ (rcell row (od, Some c) r == 0)%Q) /\
+         (forall c col, ~ (dvalue (period_amount es (acc_eqb row) c col) == 0)%Q -> In c coms) /\
+         block_ok (tw rc dates) (last row []) (name_indent row) coms
+                  (fun c => cell_amounts (bc_diff cfg) (negb (is_AL row)) es (acc_eqb row) c dates dec_nil)
+                  (acct_lines rc dates row a)).
+Proof. exact table_cells. Qed.
+Print Assumptions C02_table_cells.
+
+(* The total lines: the numbers of the line of commodity c of Total (A+L) / Total (E+I+E) / Delta
+   (line_rows = render_rows puts row_numbers of the totals after the name and commodity cells)
+   have the values of the ledger's period amounts over all A/L accounts / all other accounts,
+   negated / all accounts, accumulated unless --diff. *)
+Theorem C02_table_totals : forall cfg ds r part dl,
+  bc_valuation cfg = None ->
+  balance_report cfg ds = COk (r, part) ->
+  parse_directives ds = MOk dl ->
+  postings_syntactic dl ->
+  forall c,
+  let rc := balance_render_cfg cfg in
+  let es := ledger_entries cfg dl part in
+  let dates := end_dates part in
+  let total_al := node_totals (total_key rc) (sorted_al rc r) [] in
+  let total_eie := node_totals (total_key rc) (sorted_eie rc r) [] in
+  Forall2 num_is (row_numbers (bc_diff cfg) false total_al (Some c) dates dec_nil)
+                 (cell_amounts (bc_diff cfg) false es is_AL c dates dec_nil) /\
+  Forall2 num_is (row_numbers (bc_diff cfg) true total_eie (Some c) dates dec_nil)
+                 (cell_amounts (bc_diff cfg) true es (fun a => negb (is_AL a)) c dates dec_nil) /\
+  Forall2 num_is (row_numbers (bc_diff cfg) false (ra_plus total_al total_eie) (Some c) dates dec_nil)
+                 (cell_amounts (bc_diff cfg) false es (fun _ => true) c dates dec_nil).
+Proof. exact total_lines. Qed.
+Print Assumptions C02_table_totals.
+
+(* num_is is equality of values; cell_amounts is LedgerSpec.cells before printing *)
+Theorem C02_num_is_value : forall n d, num_is (CNum n) d <-> (dvalue n == dvalue d)%Q.
+Proof. exact num_is_value. Qed.
+Print Assumptions C02_num_is_value.
+
+Theorem C02_cell_amounts_printed : forall diff negate es sel c cols total,
+  cells diff negate es sel c cols total = map to_string (cell_amounts diff negate es sel c cols total).
+Proof.
+  intros diff negate es sel c cols. induction cols as [|col rest IH]; intros total; cbn [cells cell_amounts map]; [reflexivity|].
+  rewrite IH. reflexivity.
+Qed.
+Print Assumptions C02_cell_amounts_printed.
+
+(* The renderer alone, for every node amounts `a`, every render configuration (valued or not,
+   with or without --show-commodities for the account): the numeric cells of the line of
+   commodity oc show, per column, the value of what the node stores under keys that collapse to
+   (column, oc) -- the amount of that commodity when commodities are shown, the sum over all
+   commodities (oc = None) when they are not -- accumulated over the columns unless --diff. *)
+Theorem C02_table_cells_render : forall rc p a neg_ oc dates,
+  Forall2 cell_is
+    (row_numbers (rc_diff rc) neg_ (shown_vals rc p a) oc dates dec_nil)
+    (row_values (rc_diff rc) neg_ (shown_vals rc p a) oc dates 0%Q) /\
+  forall d, (dvalue (ra_get0 (shown_vals rc p a) (Some d, oc)) == ReportSum.esum (collapse_key (show_of rc p)) (Some d, oc) a)%Q.
+Proof. exact table_cells_render. Qed.
+Print Assumptions C02_table_cells_render.
+
 (* non-vacuity: a journal over four months with --close.  Income of January (-1000) is carried to
    Equity:Equity at the start of February, income and expenses of February (-1000 + 200) at the
    start of March, the expenses of March (+300) at the start of April; the closed accounts are
@@ -194,6 +360,39 @@ Example C02_close_example :
     (rcell EQ (Some apr, Some chf) r == 300 # 1)%Q /\ (dvalue (period_amount es (acc_eqb EQ) chf apr) == 300 # 1)%Q /\
     (rcell (acc I) (Some mar, Some chf) r == 1000 # 1)%Q /\ (rcell (acc E) (Some mar, Some chf) r == 100 # 1)%Q /\
     existsb (acc_eqb EQ) (rows r) = true /\ existsb (acc_eqb [s_Equity]) (rows r) = true /\ length (rows r) = 8%nat
+  | _, _ => False
+  end.
+Proof. vm_compute. repeat split. Qed.
+
+(* the same journal at table level: eight account blocks in table order; the block of
+   Equity:Equity (E/I/E: negated, cumulative) and the ledger's amounts for it *)
+Example C02_table_example :
+  let acc s := acc_of_name s in
+  let A := [65;115;115;101;116;115;58;66] (* Assets:B *) in
+  let I := [73;110;99;111;109;101;58;83] (* Income:S *) in
+  let E := [69;120;112;101;110;115;101;115;58;82] (* Expenses:R *) in
+  let EQ := [s_Equity; s_Equity] in
+  let chf := [67;72;70] in
+  let d0 := Date.of_civil 2020 1 5 in
+  let ds := [ SOpen d0 (acc A); SOpen d0 (acc I); SOpen d0 (acc E);
+              STxn (mkStxn (d0 + 1) [] [mkBooking (acc I) (acc A) (mkDec 1000 0) chf] None None);
+              STxn (mkStxn (d0 + 35) [] [mkBooking (acc A) (acc E) (mkDec 200 0) chf] None None);
+              STxn (mkStxn (d0 + 40) [] [mkBooking (acc I) (acc A) (mkDec 1000 0) chf] None None);
+              STxn (mkStxn (d0 + 70) [] [mkBooking (acc A) (acc E) (mkDec 300 0) chf] None None);
+              STxn (mkStxn (d0 + 89) [] [mkBooking (acc A) (acc E) (mkDec 50 0) chf] None None) ] in
+  let cfg := mkBalanceCfg 0 (d0 + 90) Monthly 0 false true None true [] [] [] [] [] true in
+  match balance_report cfg ds, parse_directives ds with
+  | COk (r, part), MOk dl =>
+    let rc := balance_render_cfg cfg in
+    let dates := end_dates part in
+    postings_syntactic_b dl = true /\
+    map fst (account_blocks rc r dates) =
+      [[s_Assets]; acc A; [s_Equity]; EQ; [s_Income]; acc I; [s_Expenses]; acc E] /\
+    length (t_rows (render_report rc r dates)) = 21%nat /\
+    map (fun pa => acct_lines rc dates (fst pa) (snd pa)) (filter (fun pa => acc_eqb (fst pa) EQ) (account_rows rc r)) =
+      [[[CText s_Equity ALeft 2; CText chf ALeft 0; CNum (mkDec 0 0); CNum (mkDec 1000 0); CNum (mkDec 1800 0); CNum (mkDec 1500 0)]]] /\
+    cell_amounts false true (ledger_entries cfg dl part) (acc_eqb EQ) chf dates dec_nil =
+      [mkDec 0 0; mkDec 1000 0; mkDec 1800 0; mkDec 1500 0]
   | _, _ => False
   end.
 Proof. vm_compute. repeat split. Qed.
